@@ -267,7 +267,7 @@ func (x *Exec) strLit(s string) *smt.Term {
 	c := x.b.Const(fmt.Sprintf("strlit_%d", len(x.strLits)), "Str")
 	x.strLits[s] = c
 	x.axiom(x.b.Eq(x.b.App("strlen", "Int", c), x.b.Int(int64(len(s)))))
-	if len(s) <= 24 {
+	if len(s) <= 8 {
 		for i := 0; i < len(s); i++ {
 			x.axiom(x.b.Eq(x.b.App("strat", "Int", c, x.b.Int(int64(i))), x.b.Int(int64(s[i]))))
 		}
